@@ -118,6 +118,11 @@ def run(tier):
     webs = constraint_web_blocks(g, 25 if tier == "quick" else 800)
     blocks += webs
     c.notes.append("T1e: %d lines in %d configurations with webs of argument constraints" % (sum(len(b[1]) for b in webs), len(webs)))
+    # T1f: destinations of other integral types (64-bit signed / unsigned, unsigned int, short, unsigned short): values at the limits
+    #      of every type are accepted, values just outside are rejected
+    wb = wide_blocks(g, 20 if tier == "quick" else 600, mutants=False)
+    blocks += wb
+    c.notes.append("T1f: %d command lines for 64 / 32 / 16 bit integral destinations" % sum(len(b[1]) for b in wb))
     # T2: long keys that are prefixes of each other, in every definition order, exact and abbreviated
     fam = [["in", "inp", "input"], ["out", "output", "output-file"], ["val", "value", "values"], ["n", "num", "number"]]
     for names in (fam if tier == "quick" else fam * 3):
